@@ -37,6 +37,14 @@ func DumpLoops(e *Engine, fn *ssa.Function, w io.Writer) {
 
 // DumpCalls prints every call site of fn with the name `on call` clauses match against.
 func DumpCalls(e *Engine, fn *ssa.Function, w io.Writer) {
+	{
+		var ms []string
+		for k := range e.ModSet(fn) {
+			ms = append(ms, k)
+		}
+		sort.Strings(ms)
+		fmt.Fprintf(w, "  modset: %v\n", ms)
+	}
 	vc := NewVC(e, fn)
 	fr := vc.newFrame(fn, nil)
 	for _, b := range fn.Blocks {
